@@ -1,6 +1,6 @@
 import AscentVerif.Proofs.C15Basic
 /-!
-# C15: the attribute / declaration / code generation checks succeed on well-formed input — helper lemmas
+# C15: the attribute / declaration / aggregation checks succeed on well-formed input — helper lemmas
 -/
 set_option linter.unusedSimpArgs false
 namespace AscentVerif.Check
@@ -84,25 +84,25 @@ theorem declsCheck_of : ∀ (ds : List Decl),
           exact absurd hn (h2 hl a ha)
     simp only [hb, hnot, Bool.false_eq_true, if_false, ih]
 
-theorem codegenCheck_of {rules : List CoreRule} {sig : Option Sig}
-    (ha : ∀ r ∈ rules, ∀ ev ∈ r.body, aggBoundOk ev = true)
-    (hs : ∀ sg, sig = some sg → ∀ i, sg.implName = some i → i = sg.structName ∧ sg.genericsMatch = true) :
-    codegenCheck rules sig = .ok () := by
-  unfold codegenCheck
-  have hany : (rules.any fun r => r.body.any fun ev => !aggBoundOk ev) = false := by
-    rw [List.any_eq_false]
-    intro r hr
-    rw [Bool.not_eq_true, List.any_eq_false]
-    intro ev hev
-    simp [ha r hr ev hev]
-  simp only [hany, Bool.false_eq_true, if_false]
-  cases sig with
-  | none => rfl
-  | some sg =>
-    cases hi : sg.implName with
-    | none => simp [hi]
-    | some i =>
-      obtain ⟨h1, h2⟩ := hs sg rfl i hi
-      simp [hi, h1, h2]
+theorem aggBoundOk_agg_iff (rel : Name) (args : List Arg) (pat : Binder) (bound : List Var) :
+    aggBoundOk (.agg rel args pat bound) = true ↔ ∀ v ∈ bound, v ∈ argVars args := by
+  simp [aggBoundOk, List.all_eq_true]
+
+/-- the executable test on the aggregations is the declarative condition -/
+theorem aggBound_iff (rules : List CoreRule) :
+    (∀ r ∈ rules, ∀ ev ∈ r.body, aggBoundOk ev = true) ↔ ¬ IllFormedAggBound rules := by
+  constructor
+  · rintro h ⟨r, hr, rel, args, pat, bound, hev, v, hv, hnv⟩
+    exact hnv ((aggBoundOk_agg_iff rel args pat bound).1 (h r hr _ hev) v hv)
+  · intro h r hr ev hev
+    cases ev with
+    | clause rel args conds => rfl
+    | binder b => rfl
+    | agg rel args pat bound =>
+      rw [aggBoundOk_agg_iff]
+      intro v hv
+      by_cases hm : v ∈ argVars args
+      · exact hm
+      · exact absurd ⟨r, hr, rel, args, pat, bound, hev, v, hv, hm⟩ h
 
 end AscentVerif.Check
